@@ -411,6 +411,19 @@ def run(res):
     res.obligations += ths
     res.discharged += ths
     res.coverage["print_assumptions"] = rep
+    # regenerated facts (tools/repofacts.py): what the runtime crate reads from its environment and the state it keeps
+    # between assertions must be what Model/Shared.v has (Props/C17f.v); a failure is reported at the end unless one of
+    # the streams below exhibits a failing input first
+    facts_error = None
+    name_f = "Props/C17f.v against the facts regenerated from /repo (environment reads, shared state)"
+    res.obligations.append(name_f)
+    try:
+        vlib.build_fact_dependents([])
+        ths_f, rep_f = vlib.check_props("C17f")
+        res.obligations += ths_f
+        res.discharged += ths_f + [name_f]
+    except vlib.CheckError as e:
+        facts_error = str(e)
     vlib.build_model_runner()
     ok, out = vlib.build_harness("rt")
     if not ok:
@@ -496,6 +509,13 @@ def run(res):
     if st5["disagreements"] == 0 and st5["oracle_failures"] == 0:
         res.discharged.append(name)
 
+    if facts_error and not res.violations:
+        import repofacts
+        f = repofacts.facts()
+        res.violation("no-failing-input-found", "Props/C17f.v no longer checks against the facts regenerated from /repo: the runtime crate's "
+                      "environment reads are %s and its statics / thread-locals are %s (Model/Shared.v has the NO_COLOR / terminal inputs, the "
+                      "plain-output counter and the source cache)" % (f["runtime_env"], f["runtime_state"]),
+                      {"theorem_file": "coq/Props/C17f.v", "proof_error": facts_error[-600:]})
     res.coverage.update({
         "evaluations": len(cases) + st1["cases"] + st3["cases"] + st4["cases"],
         "distinct_nontrivial": st1["distinct_nontrivial"] + races,
